@@ -24,10 +24,16 @@ Lemma tie_C12 :
   ints_of Consts.lits_state_nick_parseModes = [0; 43; 45; 66; 105; 111; 119; 120; 122]
   /\ ints_of Consts.lits_state_channel_parseModes =
        [0; 43; 45; 105; 109; 110; 112; 114; 115; 116; 122; 90; 79; 107; 0; 0; 1; 108; 0; 0; 1; 0;
-        113; 97; 111; 104; 118; 0; 0; 113; 97; 111; 104; 118; 1; 0]
+        98; 101; 73; 0; 1; 113; 97; 111; 104; 118; 0; 0; 113; 97; 111; 104; 118; 1; 0]
   /\ forallb (fun m => bool_decide (is_Some (chan_flag_char m true no_chanmode)))
              [105; 109; 110; 112; 114; 115; 116; 122; 90; 79]%N = true
-  /\ forallb is_priv_char [113; 97; 111; 104; 118]%N = true.
+  /\ forallb is_priv_char [113; 97; 111; 104; 118]%N = true
+  /\ forallb (fun m => is_list_mode_char m && negb (is_priv_char m)
+                       && negb (bool_decide (is_Some (chan_flag_char m true no_chanmode))))
+             [98; 101; 73]%N = true
+  /\ forallb (fun m => negb (is_list_mode_char m) && negb (is_priv_char m)
+                       && negb (bool_decide (is_Some (chan_flag_char m true no_chanmode))))
+             [43; 45; 107; 108]%N = true.
 Proof. repeat split; vm_compute; reflexivity. Qed.
 
 (* ---------- the property's sentences on the plain model ---------- *)
